@@ -1,7 +1,7 @@
 """C17 — every message and query reaches exactly the module configured for it (DESIGN.md §5 C17)."""
 from vlib import q
 from vlib.cfg import cfg_of
-from vlib.prov import peel, fmt, is_param, contains, alts, deep_peel, same_origin, is_param_field
+from vlib.prov import peel, fmt, is_param, contains, alts, deep_peel, same_origin, is_param_field, strip_adapters
 from vlib.uses import dropped_results
 
 LEVEL = "other"
@@ -243,6 +243,20 @@ def r4(ctx, cfg):
                         a1 = peel(P.call_args(g0, t0, b0)[1])
                         msgs = a1[0] == "call" and a1[1] == "std::iter::Iterator::map" and is_param_field(a1[2][0], "resp", "messages") and \
                             peel(a1[2][1]) == ("fn", "contracts::customize_msg")
+                elif t0["callee"]["key"].endswith("Response::add_submessage"):
+                    # `for m in resp.messages { out = out.add_submessage(customize_msg(m)) }`: the builder is the loop's accumulator
+                    a0 = P.call_args(g0, t0, b0)
+                    e0 = peel(a0[1])
+                    lp = q.enclosing_loops(P, g0, b0)
+                    here = (g0.key, b0)
+                    accs = peel(a0[0])
+                    accs = list(accs[1]) if accs[0] == "multi" else [accs]
+                    acc = all((peel(x)[0] == "call" and peel(x)[1].endswith("Response::new")) or (peel(x)[0] == "call" and len(peel(x)) > 4 and peel(x)[4] == here)
+                              for x in accs)
+                    msgs = e0[0] == "call" and e0[1] == "contracts::customize_msg" and peel(e0[2][0])[0] == "bound" and len(lp) == 1 and \
+                        not q.chain_adapters(lp[0][1]) and is_param_field(strip_adapters(lp[0][1]), "resp", "messages") and acc and \
+                        not pipeline._elem_conds(q.conditions_at(P, F, g0, b0)) and \
+                        contains(ret, lambda x: x[0] == "call" and len(x) > 4 and x[4] == here)
         evs = contains(ret, lambda x: x[0] == "call" and x[1].endswith("Response::add_events") and is_param_field(x[2][1], "resp", "events"))
         attrs = contains(ret, lambda x: x[0] == "call" and x[1].endswith("Response::add_attributes") and is_param_field(x[2][1], "resp", "attributes"))
         r0 = ret
